@@ -44,3 +44,8 @@ def box(v):
     """A helper of another package (never part of a version): wraps a value so that generated code can use the
     result of a call through an attribute chain, `box(f(x)).v`, `box(f(x)).plus(g(x)).v`."""
     return _Box(v)
+
+
+def boom(x):
+    """Another helper of another package: always fails (generated code calls it inside or after a try block)."""
+    raise ValueError("boom %r" % (x,))
